@@ -13,7 +13,7 @@ PROPS["C11"] = dict(
     level="proof",
     runs=[dict(bin="c11")],
     quick=dict(n=1200, shards=16),
-    thorough=dict(n=60000, shards=64, run_timeout=3000, coq_case_timeout=3000),
+    thorough=dict(n=60000, shards=64, run_timeout=10800, coq_case_timeout=7200),
     trusted_base=[
         "model coq/C11/Model.v of api/src/graph/adapter.rs and api/src/dataset/adapter.rs (hand-written)",
         "the wrapped store is modelled as a duplicate-free list with set semantics (that it behaves so is property C01); Vec-backed stores as bags (remove deletes one copy or every copy, as the code does) and failing stores as error values",
@@ -29,7 +29,7 @@ PROPS["C02"] = dict(
     translators=[translate.gen_consts],
     runs=[dict(bin="c02")],
     quick=dict(n=12, shards=16),
-    thorough=dict(n=400, shards=64, run_timeout=3000, coq_case_timeout=3000),
+    thorough=dict(n=400, shards=64, run_timeout=10800, coq_case_timeout=7200),
     trusted_base=[
         "model coq/Common/Term.v of the default Term::eq/cmp/hash in api/src/term.rs and of LanguageTag's folded Eq/Ord/Hash (hand-written); TermKind discriminants re-generated from the source (gen/Consts.v)",
         "hash model assumes a 64-bit little-endian target (isize discriminant = 8 bytes)",
@@ -42,7 +42,7 @@ PROPS["C15"] = dict(
     level="proof",
     runs=[dict(bin="c15")],
     quick=dict(n=4500, shards=16),
-    thorough=dict(n=180000, shards=128, run_timeout=3000, coq_case_timeout=3000),
+    thorough=dict(n=180000, shards=128, run_timeout=10800, coq_case_timeout=7200),
     trusted_base=[
         "model coq/C15/Model.v of api/src/source.rs, source/{filter,map,filter_map,convert}.rs and of insert_all/remove_all counting in api/src/{graph,dataset}.rs (hand-written, continuation style as the code); coq/C15/Generic.v is the same model for any item / error types (GenericProofs.generic_is_model_*: Model.v is its instance N)",
         "parser end: coq/C15/ParserSource.v transcribes the control flow of sophia_rio's StrictRio{Triple,Quad}Source::try_for_some_item and of rio_turtle 0.8.6 N{Triples,Quads}Parser::parse_step / parse_{triple,quad}_line / is_end / LookAheadByteReader::new (one line per step, synthetic first line, error position = current line, consume_line_end) by hand; the reading of the terms of ONE line is not transcribed from rio: it is the reference reader of coq/C03/Model.v (W3C grammar), and every theorem holds for an arbitrary line reader; agreement with rio on the generated documents is what the correspondence run checks",
@@ -59,7 +59,7 @@ PROPS["C19"] = dict(
     translators=[translate.gen_consts],
     runs=[dict(bin="c19")],
     quick=dict(n=5000, shards=16),
-    thorough=dict(n=150000, shards=128, run_timeout=3000, coq_case_timeout=3000),
+    thorough=dict(n=150000, shards=128, run_timeout=10800, coq_case_timeout=7200),
     trusted_base=[
         "model coq/C19/Model.v of LocalLoader::get in resource/src/loader/_local.rs, of std::path::Path::components / PathBuf::join on Unix and of open+read on a symlink-free file system (hand-written); the negotiated extension list is re-generated from the source",
         "the operating system resolves a path made of a directory plus Normal components inside that directory (no symlinks inside the configured directories)",
@@ -71,7 +71,7 @@ PROPS["C07"] = dict(
     level="proof",
     runs=[dict(bin="c07")],
     quick=dict(n=1500, shards=16),
-    thorough=dict(n=60000, shards=128, run_timeout=3000, coq_case_timeout=3000),
+    thorough=dict(n=60000, shards=128, run_timeout=10800, coq_case_timeout=7200),
     trusted_base=[
         "model coq/C07/Model.v of isomorphism/src/{dataset,iso_term,hash}.rs (hand-written); the 64-bit hash is a parameter of every theorem (any function of what the code feeds to the hasher), so the theorems hold for SipHash and for the FNV stand-in used to RUN the model",
         "sort_unstable is modelled by insertion sort; theorem gsort_perm_eq shows the sorted key sequence is independent of the sorting algorithm",
@@ -88,7 +88,7 @@ PROPS["C10"] = dict(
     extra=[extras.c10_miri],
     runs=[dict(bin="c10")],
     quick=dict(n=400, shards=16),
-    thorough=dict(n=20000, shards=128, run_timeout=3000, coq_case_timeout=3000, args=["--thorough-sizes"]),
+    thorough=dict(n=20000, shards=128, run_timeout=10800, coq_case_timeout=7200, args=["--thorough-sizes"]),
     trusted_base=[
         "ownership model coq/C10/Model.v of inmem/src/index.rs with three designs under clone_mode: Owned = the current code after /repo 20c1ef6 (t2i keys and i2t entries each own their strings; Clone copies both), Rebuilt = the previous code (i2t entries pointed into the keys, Clone rebuilt them), Derived = the original derived Clone; Drop, moves, growth, bulk constructors, clone_from, mem::take/replace/swap and terms cloned OUT of a store (escaped_clone_safe; the old designs are refuted: derived_clone_refuted, term_clone_escapes_refuted) (hand-written)",
         "hook SimpleTermIndex::verif_audit / verif_term_index (cfg sophia_verif) reports, per index, whether i2t[i] holds the term of the key mapped to i (an owned copy with the same text, or a borrow of that very key); the harness compares it with the model's audit",
@@ -102,7 +102,7 @@ PROPS["C10"] = dict(
 PROPS["C03"] = dict(
     level="proof", runs=[dict(bin="c03")],
     quick=dict(n=2000, shards=16),
-    thorough=dict(n=60000, shards=128, run_timeout=3000, coq_case_timeout=3000),
+    thorough=dict(n=60000, shards=128, run_timeout=10800, coq_case_timeout=7200),
     trusted_base=[
         "model coq/C03/Model.v of quoted_string/write_term/write_triple (turtle/src/serializer/nt.rs) and of the statement/graph-name rule of nt.rs/nq.rs (hand-written, byte level; utf8 from Common/Term.v)",
         "the reference reader (strict UTF-8 decoder + recursive descent over code points) is hand-written from the W3C N-Quads grammar plus quotedTriple; it is cross-checked against sophia's Rio parser on hand-formatted documents with ECHAR/UCHAR escapes, comments, CRLF and malformed input",
@@ -117,7 +117,7 @@ PROPS["C20"] = dict(
     translators=[translate.gen_consts],
     runs=[dict(bin="c20")],
     quick=dict(n=2700, shards=16),
-    thorough=dict(n=30000, shards=128, run_timeout=3000, coq_case_timeout=3000),
+    thorough=dict(n=30000, shards=128, run_timeout=10800, coq_case_timeout=7200),
     trusted_base=[
         "model coq/C20/Model.v of api/src/term/_native_literal.rs and of core's integer Display/FromStr, bool FromStr, the grammar accepted by f64::from_str and flt2dec::digits_to_dec_str (hand-written); datatype white-lists re-generated from the source and proved equal to the model's (whitelists_from_source)",
         "XSD 1.1 lexical spaces and integer facets transcribed as boolean recognisers/tables (integer recogniser proved equal to its explicit grammar; Rust's numeric float grammar proved equal to xsd:double's)",
@@ -131,7 +131,7 @@ PROPS["C14"] = dict(
     level="proof",
     runs=[dict(bin="c14")],
     quick=dict(n=3600, shards=16),
-    thorough=dict(n=80000, shards=64, run_timeout=3000, coq_case_timeout=3000),
+    thorough=dict(n=80000, shards=64, run_timeout=10800, coq_case_timeout=7200),
     trusted_base=[
         "model coq/C14/Model.v of order_by/cmp_bindings_with (exec.rs), sparql_cmp/sparql_order_by/order_by_class (expression.rs), SparqlValue::partial_cmp/order_by_class/order_by_cmp (value.rs), SparqlNumber coercing comparison and exact_cmp (_number.rs), XsdDateTime partial_cmp/timeline_cmp (hand-written); Term::cmp from Common/Term.v (C02)",
         "lexical form -> value (Rust integer/float parsers, BigDecimal, dateTime regex + chrono) is not modelled: each pool term is given to the model with the value the implementation parsed (Debug rendering of ResultTerm::value())",
@@ -150,7 +150,7 @@ PROPS["C14"] = dict(
 PROPS["C17"] = dict(
     level="proof", runs=[dict(bin="c17")],
     quick=dict(n=2200, shards=16),
-    thorough=dict(n=20000, shards=64, run_timeout=3000, coq_case_timeout=3000),
+    thorough=dict(n=20000, shards=64, run_timeout=10800, coq_case_timeout=7200),
     trusted_base=[
         "model coq/C17/Model.v of iri/src/relativize.rs and of oxiri 0.2.11 IriParser (positions, resolution) behind sophia_iri::resolve::BaseIri, hand-written over UTF-8 bytes; RFC 3986 5.2 transcribed as resolve_rfc",
         "oxiri's character-level validation is not modelled (the harness feeds valid IRIs/references only)",
@@ -162,7 +162,7 @@ PROPS["C01"] = dict(
     level="proof",
     runs=[dict(bin="c01")],
     quick=dict(n=1000, shards=16),
-    thorough=dict(n=60000, shards=128, run_timeout=3000, coq_case_timeout=3000, args=["--u16-full"]),
+    thorough=dict(n=60000, shards=128, run_timeout=10800, coq_case_timeout=7200, args=["--u16-full"]),
     trusted_base=[
         "model coq/C01/Model.v of inmem/src/{index,graph,dataset}.rs, {graph,dataset}/_iter.rs, the inherited default methods of api/src/{graph,dataset}.rs and the std-collection stores of _foreign_impl.rs (hand-written, arm by arm)",
         "BTreeSet<[I;k]> is modelled as a strictly sorted duplicate-free list under the lexicographic order (std's B-tree, HashMap, HashSet are trusted); HashSet/BTreeSet stores are sets modulo Eq/Hash/Ord of terms (C02)",
@@ -183,7 +183,7 @@ PROPS["C09"] = dict(
     coq_timeout=2400,
     runs=[dict(bin="c09")],
     quick=dict(n=7200, shards=16),
-    thorough=dict(n=300000, shards=128, run_timeout=3000, coq_case_timeout=3000),
+    thorough=dict(n=300000, shards=128, run_timeout=10800, coq_case_timeout=7200),
     trusted_base=[
         "lib/regex2coq.py: parser of the (?x) regex subset (flag i = Unicode simple case folding with the table of the regex-syntax release pinned by /repo/Cargo.lock; the atom table is refined where a class cuts an atom); IRI_REGEX_SRC and IRELATIVE_REF_REGEX_SRC are re-generated from iri/src/_regex.rs on every run (exercised by the correspondence run)",
         "Rfc3987.v and Resolve.v: hand transcriptions of RFC 3987 2.2 / RFC 3986 (Rfc3987.v cross-checked case by case against an independent Rust recogniser)",
@@ -198,7 +198,7 @@ PROPS["C13"] = dict(
     level="proof", coq_targets=["C13/Properties", "C13/ExprProperties", "C13/FuncProperties"],
     runs=[dict(bin="c13"), dict(bin="c13e", quick=dict(n=3000, shards=16), thorough=dict(n=120000, shards=128))],
     quick=dict(n=700, shards=16),
-    thorough=dict(n=40000, shards=128, run_timeout=3000, coq_case_timeout=3000),
+    thorough=dict(n=40000, shards=128, run_timeout=10800, coq_case_timeout=7200),
     trusted_base=[
         "model coq/C13/Model.v of sparql/src/{wrapper,exec,bgp,binding,matcher}.rs, matcher/_any_pattern.rs and NumModel.v of value/_number.rs (hand-written, after the fix: commits; pre-fix variants kept as select0/graph0/...)",
         "spargebra's parsing/translation is trusted: the algebra given to the model and the oracle is read back from the Debug rendering of the parsed query",
@@ -227,7 +227,7 @@ PROPS["C13"] = dict(
 PROPS["C12"] = dict(
     level="proof", runs=[dict(bin="c12")],
     quick=dict(n=3430, shards=16),
-    thorough=dict(n=100000, shards=128, run_timeout=3000, coq_case_timeout=3000),
+    thorough=dict(n=100000, shards=128, run_timeout=10800, coq_case_timeout=7200),
     trusted_base=[
         "model coq/C12/Model.v of jsonld/src/serializer/engine.rs (after the fix: commits), util_traits.rs filters and the three options (hand-written; hash maps as association lists, vector index = (graph,id) pair); fuel = number of nodes for mark/cells/convert: for cells/convert proved sufficient (cells_stable, L_le_nodes; the round-trip theorem is about the fuelled functions themselves), for mark argued (the Rust loop climbs distinct nodes), anchoring fuel proved irrelevant; coq/C12/Calls.v: the serializer object (one fresh engine per call, writer targets append, the jsonifier keeps the last document, InvalidJsonLiteral aborts the call)",
         "reference reader to_rdf (Coq) and reference_to_rdf (Rust oracle) hand-written from JSON-LD 1.1 API section 8 for expanded/flattened documents; lower-cased language in rdfDirection modes",
@@ -249,7 +249,7 @@ PROPS["C08"] = dict(
     coq_targets=["C08/Model", "C08/Properties"],
     runs=[dict(bin="c08", profiles=["dev", "release"])],
     quick=dict(n=6000, shards=8),
-    thorough=dict(n=400000, shards=16, run_timeout=3400),
+    thorough=dict(n=400000, shards=16, run_timeout=10800),
     trusted_base=[
         "PARTIAL BY NATURE. Proved (no axioms), with the validator regexes BNODE_ID, VARNAME, LANG_TAG re-generated from api/src/term/*.rs on every run (lib/labels2coq.py): every blank node label and language tag that the Rio token rules (transcribed by hand in coq/C08/Tokens.v from rio_turtle's shared.rs) accept is accepted by the toolkit's validator; BNODE_ID equals Rio's label language and is included in the W3C BLANK_NODE_LABEL; VARNAME equals SPARQL's VARNAME -- by the Kleene-algebra decision procedure ka, transported to a verified derivative matcher over code points (infrastructure shared with C09)",
         "IRIs: the strict parsers validate with oxiri; that IRI validation equals RFC 3987 is C09; oxiri = RFC 3987 is correspondence only",
@@ -270,7 +270,7 @@ _C05_MODEL = [
 PROPS["C05"] = dict(
     level="proof", translators=[translate.gen_consts], runs=[dict(bin="c05")],
     quick=dict(n=1200, shards=32),
-    thorough=dict(n=8000, shards=64, args=["--thorough"], run_timeout=3000, coq_case_timeout=3000),
+    thorough=dict(n=8000, shards=64, args=["--thorough"], run_timeout=10800, coq_case_timeout=7200),
     trusted_base=_C05_MODEL,
     assumptions=["datasets well-formed (wf_quad: IRIs without '>', labels/tags without space, IRI predicates, graph names IRI or blank)",
                  "invariance proved under no-top-ties (relabelling) or distinct first-degree hashes (relabelling + order); unrestricted invariance refuted for RDFC-1.0 itself (known finding)"],
@@ -278,7 +278,7 @@ PROPS["C05"] = dict(
 PROPS["C06"] = dict(
     level="proof", translators=[translate.gen_consts], runs=[dict(bin="c06")], coq_targets=["C06/Properties", "C06/Regen"],
     quick=dict(n=400, shards=16),
-    thorough=dict(n=12000, shards=64, args=["--thorough"], run_timeout=3000, coq_case_timeout=3000),
+    thorough=dict(n=12000, shards=64, args=["--thorough"], run_timeout=10800, coq_case_timeout=7200),
     trusted_base=_C05_MODEL + ["coq/C06/Model.v: RDFC-1.0 sections 4.4-4.8 and canonical N-Quads transcribed from the Recommendation (from memory, no network), the orders it leaves open taken as Heap's order / label order / stable ties"],
     assumptions=["well-formed datasets; the specification's escape table does not include the XML-Char clause of RDF 1.2 N-Quads (U+FFFE/U+FFFF), which could not be checked offline"],
 )
@@ -292,7 +292,7 @@ PROPS["C04"] = dict(
     coq_targets=["C04/Model", "C04/Properties", "C04/RegenDepth"],
     runs=[dict(bin="c04")],
     quick=dict(n=2000, shards=16),
-    thorough=dict(n=60000, shards=128, run_timeout=3000, coq_case_timeout=3000),
+    thorough=dict(n=60000, shards=128, run_timeout=10800, coq_case_timeout=7200),
     trusted_base=[
         "model coq/C04/Model.v of the planning phase and statement emission of turtle/src/serializer/_pretty.rs and of get_checked_prefixed_pair (hand-written, terms interned by the harness modulo Term::eq in Term::cmp order)",
         "INTEGER, DECIMAL, DOUBLE, BOOLEAN, PN_LOCAL regular expressions re-generated from _pretty.rs on every run (lib/regex_turtle2coq.py); Turtle productions [19]-[21], PN_LOCAL etc. transcribed by hand (C04/Grammar.v)",
@@ -311,7 +311,7 @@ PROPS["C16"] = dict(
     level="proof",
     runs=[dict(bin="c16", profiles=["dev", "release"])],
     quick=dict(n=720, shards=8, args=["--big", "100000"]),
-    thorough=dict(n=3600, shards=16, args=["--big", "1000000"], run_timeout=3600, coq_case_timeout=3000),
+    thorough=dict(n=3600, shards=16, args=["--big", "1000000"], run_timeout=10800, coq_case_timeout=7200),
     trusted_base=[
         "frame-counting model coq/C16/Model.v (cost monad ret/bind/call: a Rust loop adds no frame, a self-call adds one) of the five matching iterators of sophia_inmem, nt::quoted_string, exec::graph/graph_rec with the FilterMap/Chain/Flatten iterators it builds, engine::mark_list_node/populate_list/convert_rdf_object, _pretty::find_subject, Term::constituents/atoms (hand-written; original recursive and repaired loop shapes side by side)",
         "the theorems count frames of the model: the optimiser (LLVM turns the iterators' and quoted_string's tail self-calls into jumps in release builds) and the size of a frame are outside them; they are observed by the oracle: subprocess of the harness on a 2 MiB thread in dev and release, addresses seen by caller-supplied callbacks (closure matchers, io::Write sink, probing Dataset), mincore(2) high-water mark of the fresh thread stack (Linux, 4 KiB pages)",
@@ -324,7 +324,7 @@ PROPS["C16"] = dict(
 PROPS["C18"] = dict(
     level="proof", runs=[dict(bin="c18")],
     quick=dict(n=540, shards=16),
-    thorough=dict(n=20000, shards=128, run_timeout=3000, coq_case_timeout=3000),
+    thorough=dict(n=20000, shards=128, run_timeout=10800, coq_case_timeout=7200),
     trusted_base=[
         "coq/C18/Model.v: hand transcription of convert_triple / serialize_triples (and the Checked wrapper of the fix) and of rio_xml 0.8.6 formatter.rs/parser.rs and quick-xml 0.36.2 escape.rs/writer.rs; documents compared byte for byte, both parses compared triple by triple",
         "strict reader written from XML 1.0 (2.2, 2.11, 3.3.3, 4.1), Namespaces in XML and the RDF/XML rules for the formatter's vocabulary; cross-checked against an independent Rust reference reader in c18.rs",
